@@ -130,6 +130,8 @@ type Outcome struct {
 	Err error
 	// Panic is set when a panic escaped from the library into the caller.
 	Panic any
+	// FloatTol: compare floats with a relative tolerance of 1e-12 (see EqualTol)
+	FloatTol bool
 }
 
 // Force deeply evaluates a real value inside a recover; an error while forcing becomes the outcome's error.
@@ -230,11 +232,22 @@ func describe(v value.Value, d int) string {
 // and value, lists by element sequence (or as multisets / within tie groups
 // where the order is open), maps by key/value set.
 func Equal(want ref.Value, got value.Value) (bool, string) {
-	in := ref.NewInterp()
+	return EqualTol(want, got, false)
+}
+
+// EqualTol: with tol, floats may differ by a relative 1e-12 (granted only where the property allows rounding
+// differences: the optimizer regrouped constant operands of an operator declared commutative).
+func EqualTol(want ref.Value, got value.Value, tol bool) (bool, string) {
+	in := &cmpCtx{Interp: ref.NewInterp(), tol: tol}
 	return equal(in, want, got, "")
 }
 
-func equal(in *ref.Interp, want ref.Value, got value.Value, path string) (bool, string) {
+type cmpCtx struct {
+	*ref.Interp
+	tol bool
+}
+
+func equal(in *cmpCtx, want ref.Value, got value.Value, path string) (bool, string) {
 	if got == nil {
 		return false, path + ": real value is nil"
 	}
@@ -245,6 +258,8 @@ func equal(in *ref.Interp, want ref.Value, got value.Value, path string) (bool, 
 		}
 	case float64:
 		if g, ok := got.(value.Float); ok && (float64(g) == w || (math.IsNaN(w) && math.IsNaN(float64(g)))) {
+			return true, ""
+		} else if ok && in.tol && math.Abs(float64(g)-w) <= 1e-12*math.Max(math.Abs(float64(g)), math.Abs(w)) {
 			return true, ""
 		}
 	case string:
@@ -346,7 +361,7 @@ func equal(in *ref.Interp, want ref.Value, got value.Value, path string) (bool, 
 	return false, fmt.Sprintf("%s: reference %s, real %s", path, ref.Describe(want), Describe(got))
 }
 
-func multisetEqual(in *ref.Interp, ws []ref.Value, gs []value.Value, path string) (bool, string) {
+func multisetEqual(in *cmpCtx, ws []ref.Value, gs []value.Value, path string) (bool, string) {
 	used := make([]bool, len(gs))
 	for _, w := range ws {
 		found := false
@@ -399,7 +414,7 @@ func CompareOutcome(wv ref.Value, we *ref.Err, readAheadErr bool, got Outcome) (
 		}
 		return Disagree, fmt.Sprintf("reference: value %s; real: error %v", ref.Describe(wv), got.Err)
 	}
-	if ok, d := Equal(wv, got.Val); !ok {
+	if ok, d := EqualTol(wv, got.Val, got.FloatTol); !ok {
 		return Disagree, d
 	}
 	return Agree, ""
